@@ -201,6 +201,14 @@ partial def readDIBlock (inp : IO.FS.Stream) : IO (Except Err DI) := do
 
 def backendOf (s : String) : Backend := if s == "file" then .file else .buf
 
+/-- the canonical `io` lines of a call list (C09: the operation's I/O plan) -/
+def ioLines (cs : List IOCall) : List String :=
+  cs.filterMap fun
+    | .seekStart off => some s!"io seek {off}"
+    | .seekEnd => some "io seekend"
+    | .write p => if p.isEmpty then none else some s!"io write {p.length} {fnv64 p}"
+    | .truncate n => some s!"io trunc {n}"
+
 partial def loop (inp : IO.FS.Stream) (out : IO.FS.Stream) (st : DState) : IO Unit := do
   let line ← inp.getLine
   if line.isEmpty then
@@ -370,6 +378,7 @@ partial def loop (inp : IO.FS.Stream) (out : IO.FS.Stream) (st : DState) : IO Un
           let mut cur := img
           let mut bl := blobs
           let mut failed := false
+          let mut ios : List String := []
           for gs in signers do
             if failed then continue
             match gs.metadata hashOf cur .sha256, bl with
@@ -388,8 +397,11 @@ partial def loop (inp : IO.FS.Stream) (out : IO.FS.Stream) (st : DState) : IO Un
                 failed := true
               | .ok di =>
                 let (img', r) := step sha ph cur (.add di (parseTOpt (kv.get "t"))) nowB
+                ios := ios ++ ioLines (plan sha ph cur (.add di (parseTOpt (kv.get "t"))) nowB).1
                 out.putStrLn s!"res {resStr r}"
                 if r == .ok then cur := img' else failed := true
+          if kv.get "io" == "1" then
+            for l in ios do out.putStrLn l
           loop inp out { st with img := some cur }
     | "mkimg" =>
       -- the independent encoder: build an image from an explicit description and write it out
@@ -490,6 +502,8 @@ partial def loop (inp : IO.FS.Stream) (out : IO.FS.Stream) (st : DState) : IO Un
         | some img =>
           let (img', r) := step sha ph img op now
           out.putStrLn s!"res {resStr r}"
+          if kv.get "io" == "1" then
+            for l in ioLines (plan sha ph img op now).1 do out.putStrLn l
           loop inp out { st with img := some img' }
 
 end Drv
